@@ -94,6 +94,45 @@ def events(ctx):
     for _ in range(ctx.q(10000, 500000)):
         b = [rng.choice([64, 64, 64, rng.randrange(256)])] + [rng.randrange(256) for _ in range(rng.choice([0, 3, 5, 6, 6, 6, 9]))]
         yield record("cds.unpack", {"octets": b})
+    # every value of the 16-bit day field is decoded in this one process (65 536 distinct days)
+    for d in range(65536):
+        ms = (d * 1318699) % 86400000
+        yield record("cds.unpack", {"octets": [64, d >> 8, d & 255] + list(ms.to_bytes(4, "big"))})
+    # very long time spans: the day count overflows by far (up to timedelta.max) - an overflow is an overflow
+    for days in (65536, 10 ** 6, 2937279, 2937280, 3000000, 99999999, 999999999):
+        for st in ({"days": 0, "ms": 0}, {"days": 65535, "ms": 86399999}, {"days": 22000, "ms": 1}):
+            yield record("cds.add", {"st": st, "td": {"days": days, "secs": rng.choice([0, 86399]), "us": 0}})
+
+
+def other_zone_events(ctx):
+    """The same operations in a process whose local time zone is not UTC (set before the library is imported): stamps, their
+    Unix / UTC views and additions do not depend on where the process runs."""
+    import json, os, subprocess, sys
+    code = (
+        "import os, sys, json, time\n"
+        "os.environ['TZ'] = sys.argv[1]; time.tzset()\n"
+        "from vp.core import import_repo; import_repo()\n"
+        "from vp.ops import record\n"
+        "evs = json.loads(sys.stdin.read())\n"
+        "print(json.dumps([record(e['op'], e['a']) for e in evs]))\n")
+    evs = []
+    for d, ms in ((0, 0), (4383, 0), (4382, 86399999), (22645, 3600000), (30000, 43200000), (65535, 86399999)):
+        evs.append({"op": "cds.rt", "a": {"st": {"days": d, "ms": ms}, "sfx": []}})
+        evs.append({"op": "cds.add", "a": {"st": {"days": d, "ms": ms}, "td": {"days": 0, "secs": 3600, "us": 0}}})
+        evs.append({"op": "cds.unpack", "a": {"octets": [64, d >> 8, d & 255] + list(ms.to_bytes(4, "big"))}})
+    evs.append({"op": "cds.from_dt", "a": {"t": {"y": 2020, "mo": 1, "d": 1, "h": 1, "mi": 0, "s": 0, "us": 0}}})
+    env = dict(os.environ)
+    env["PYTHONPATH"] = os.path.dirname(os.path.dirname(os.path.dirname(os.path.abspath(__file__))))
+    for tz in ("Asia/Tokyo", "America/St_Johns", "Pacific/Kiritimati"):
+        r = subprocess.run([sys.executable, "-c", code, tz], input=json.dumps(evs), capture_output=True, text=True, env=env, timeout=600)
+        try:
+            out = json.loads(r.stdout.strip().splitlines()[-1])
+        except Exception:  # noqa
+            # the library could not even be used in that zone: every operation counts as failed
+            out = [{"op": e["op"], "a": e["a"], "o": {"exc": "UNDOC:process-in-zone-" + tz}} for e in evs]
+        for e in out:
+            e["a"] = dict(e["a"], zone=tz)
+            yield e
 
 
 def run(ctx):
@@ -107,6 +146,7 @@ def run(ctx):
     ctx.symbolic_laws(['Law_CdsEnc', 'Law_CdsAdd'] + (['Law_CdsCalendar'] if ctx.thorough else []))
     ctx.replay_vectors("MC_Codec", "MC_Codec.cfg", perform, "grid", classify, consts='CONSTANT Area = "cds"',
                        need_actions=("PickVector",))
+    ctx.validate_events(other_zone_events(ctx), "other-zones", classify)
     ctx.validate_events(events(ctx), "calls", classify, shard=4000)
     from .. import repotests
     repotests.codec_stage(ctx, "C14")       # the calls the repository's own tests make, judged by the specification
